@@ -1524,6 +1524,8 @@ def run(ctx):
     enc_params = check_encoder(a)
     check_safe_filename(a, enc_params)
     check_namer(a)
+    from .common import option_wiring_lint
+    option_wiring_lint(ctx, 'C15-D2', ['PathNamer'])
     check_components(a)
     n = check_writer(a)
     ck.info['sinks_enumerated'] = n
